@@ -38,6 +38,7 @@ class Report:
         self.accepted = False       # the next block is reached (no error)
         self.errors = 0             # returns with Err
         self.ok_returns = 0         # returns without error (inside one block's iteration)
+        self.ends = []              # per path that goes on to the next block: number of violations built on it
 
 
 def walk_block(ctx, vb, attr, lines, hook_extra, attr_value=None, max_states=40000):
@@ -110,6 +111,7 @@ def walk_block(ctx, vb, attr, lines, hook_extra, attr_value=None, max_states=400
                 first[0] = False
                 return False
             rep.accepted = True
+            rep.ends.append(env.get(-6, CW.const(0))[1])
             return True
         return False
     try:
